@@ -50,7 +50,10 @@ func (t *TracesDataPlanner) Process(ctx *shared.PlannerContext) (sql.ISelect, er
 				sql.NewSimpleCol("argMin(traces.service_name, traces.timestamp_ns)", "_root_service_name"),
 				sql.NewSimpleCol("argMin(traces.name, traces.timestamp_ns)", "_root_trace_name")).
 			From(sql.NewSimpleCol(ctx.TracesTable, "traces")).
-			AndWhere(sql.NewIn(sql.NewRawObject("traces.trace_id"), withTraceIdsRef)).
+			AndWhere(
+				sql.NewIn(sql.NewRawObject("traces.trace_id"), withTraceIdsRef),
+				sql.Ge(sql.NewRawObject("traces.timestamp_ns"), sql.NewIntVal(ctx.From.UnixNano())),
+				sql.Lt(sql.NewRawObject("traces.timestamp_ns"), sql.NewIntVal(ctx.To.UnixNano()))).
 			GroupBy(sql.NewRawObject("traces.trace_id")),
 		"traces_info")
 	return sql.NewSelect().
@@ -73,7 +76,10 @@ func (t *TracesDataPlanner) Process(ctx *shared.PlannerContext) (sql.ISelect, er
 		).
 		AndWhere(
 			sql.NewIn(sql.NewRawObject("traces.trace_id"), withTraceIdsRef),
-			sql.NewIn(sql.NewRawObject("(traces.trace_id, traces.span_id)"), withTraceIdsSpanIdsRef)).
+			sql.NewIn(sql.NewRawObject("(traces.trace_id, traces.span_id)"), withTraceIdsSpanIdsRef),
+			// the spans of the requested window only, as every other read of the search
+			sql.Ge(sql.NewRawObject("traces.timestamp_ns"), sql.NewIntVal(ctx.From.UnixNano())),
+			sql.Lt(sql.NewRawObject("traces.timestamp_ns"), sql.NewIntVal(ctx.To.UnixNano()))).
 		GroupBy(sql.NewRawObject("traces.trace_id")).
 		OrderBy(sql.NewOrderBy(sql.NewRawObject("start_time_unix_nano"), sql.ORDER_BY_DIRECTION_DESC)), nil
 }
